@@ -641,7 +641,18 @@ impl ConnectionPool {
             }
         }
 
+        let previous_pools = get_all_pools();
+
         POOLS.store(Arc::new(new_pools.clone()));
+
+        // The clients PAUSE holds at the gate of a pool that is gone now wait for a RESUME that
+        // cannot reach them any more: let them go, they find out that their pool is gone.
+        for (identifier, pool) in previous_pools {
+            if !new_pools.contains_key(&identifier) {
+                pool.resume();
+            }
+        }
+
         Ok(())
     }
 
